@@ -469,21 +469,22 @@ func appendInt(dst []byte, bits uint8, index uint64) []byte {
 	}
 	b0 := uint64(1<<bits - 1)
 
-	if index <= b0 {
+	// A value that fits in the prefix has to be strictly smaller than 2^N-1:
+	// a prefix of all ones says that continuation octets follow, even when the
+	// remainder is zero.
+	if index < b0 {
 		dst[len(dst)-1] |= byte(index)
 		return dst
 	}
 
 	dst[len(dst)-1] |= byte(b0)
 	index -= b0
-	for index != 0 {
+	for index >= 128 {
 		dst = append(dst, 128|byte(index&127))
 		index >>= 7
 	}
 
-	dst[len(dst)-1] &= 127
-
-	return dst
+	return append(dst, byte(index))
 }
 
 // readString reads string from a header field.
@@ -549,11 +550,13 @@ func appendString(dst, src []byte, encode bool) []byte {
 	// TODO: Encode only if length is lower with the string encoded
 
 	n := uint64(len(b))
-	nn := len(dst) - 1 // peek last byte
-	if nn >= 0 && dst[nn] != 0 {
-		dst = append(dst, 0)
-		nn++
-	}
+
+	// The length gets an octet of its own. Reusing a trailing zero octet, which
+	// is what this used to do, merged the length into whatever came before
+	// whenever that happened to end in 0x00: an empty name, or a name whose
+	// Huffman form ends in a zero octet.
+	dst = append(dst, 0)
+	nn := len(dst) - 1
 
 	dst = appendInt(dst, 7, n)
 	dst = append(dst, b...)
@@ -612,7 +615,7 @@ func (hp *HPACK) AppendHeader(dst []byte, hf *HeaderField, store bool) []byte {
 				}
 			}
 		} else if !store || hp.DisableDynamicTable { // with or without indexing
-			dst = append(dst, 0, 0)
+			dst = append(dst, 0)
 		} else {
 			dst = append(dst, literalByte)
 			hp.addDynamic(hf)
